@@ -600,3 +600,58 @@ def panic_key(lang, loc, msg):
             if mm:
                 fn = mm.group(1); break
     return "%s:%s:%s:%s" % (lang, rel, fn, text)
+
+
+# ------------------------------------------------------------------------------------------ supervised filter runs
+def run_supervised(cmd, lines, shards=None, stall=150, chunk=4000):
+    """Like vf.run_filter, for filters that flush one result line per case, but a case that produces no result for `stall`
+    seconds is killed and answered `hang <seconds>`; the remaining cases of that shard continue in a fresh process.
+    Returns the list of output lines in input order."""
+    import subprocess, tempfile, threading, time, concurrent.futures
+    if not lines:
+        return []
+    shards = shards or min(vf.NCPU, max(1, len(lines) // 64))
+    res = [None] * len(lines)
+
+    def one(idx):
+        pos = 0
+        while pos < len(idx):
+            part = idx[pos:pos + chunk]
+            with tempfile.TemporaryDirectory(prefix="c16run") as d:
+                inp, outp = os.path.join(d, "in"), os.path.join(d, "out")
+                with open(inp, "w") as f:
+                    f.write("\n".join(lines[i] for i in part) + "\n")
+                with open(inp) as fi, open(outp, "w") as fo:
+                    p = subprocess.Popen(cmd, stdin=fi, stdout=fo, stderr=subprocess.DEVNULL)
+                    last_size, last_t = -1, time.time()
+                    hung = False
+                    while p.poll() is None:
+                        time.sleep(0.5)
+                        sz = os.path.getsize(outp)
+                        if sz != last_size:
+                            last_size, last_t = sz, time.time()
+                        elif time.time() - last_t > stall:
+                            p.kill(); p.wait(); hung = True
+                            break
+                outl = open(outp, errors="replace").read().split("\n")
+                if outl and outl[-1] == "":
+                    outl.pop()
+                elif outl and hung:
+                    outl.pop()      # partial last line
+                for i, o in zip(part, outl):
+                    res[i] = o
+                done = len(outl)
+                if done < len(part):
+                    if hung:
+                        res[part[done]] = "hang %d" % stall
+                    else:
+                        res[part[done]] = "crash rc=%s" % p.returncode   # process died (abort, stack overflow, …)
+                    pos += done + 1
+                else:
+                    pos += len(part)
+        return True
+
+    groups = [list(range(i, len(lines), shards)) for i in range(shards)]
+    with concurrent.futures.ThreadPoolExecutor(max_workers=shards) as ex:
+        list(ex.map(one, groups))
+    return res
